@@ -120,22 +120,23 @@ func (c cast) count(kind string) int {
 var encAlgs = []string{"A256KW", "A128CBC-NOPAD", "A192CBC-NOPAD", "A256CBC-NOPAD", "RSA-OAEP-256", "AES", "RSA"}
 
 func genLen(rt *rapid.T) int {
-	switch rapid.IntRange(0, 11).Draw(rt, "lenClass") {
-	case 0:
+	switch rapid.IntRange(0, 19).Draw(rt, "lenClass") {
+	case 0, 1:
 		return 0
-	case 1:
+	case 2, 3:
 		return 1
-	case 2, 3, 4:
+	case 4, 5, 6, 7, 8, 9:
 		return rapid.IntRange(2, 2000).Draw(rt, "lenSmall")
-	case 5:
+	case 10:
 		return rapid.IntRange(2001, 65534).Draw(rt, "lenMid")
-	case 6:
+	case 11, 12:
 		return 65536 + rapid.IntRange(-1, 1).Draw(rt, "lenSeg1")
-	case 7:
+	case 13:
 		return 131072 + rapid.IntRange(-1, 1).Draw(rt, "lenSeg2")
-	case 8:
-		return 196608 + rapid.IntRange(-1, 1).Draw(rt, "lenSeg3")
-	case 9:
+	case 14:
+		if rapid.Bool().Draw(rt, "lenSeg3OrBig") {
+			return 196608 + rapid.IntRange(-1, 1).Draw(rt, "lenSeg3")
+		}
 		return rapid.IntRange(65538, 200000).Draw(rt, "lenBig")
 	default:
 		return rapid.IntRange(100, 9000).Draw(rt, "lenFew")
@@ -315,6 +316,9 @@ func genCast(rt *rapid.T, procs []int) cast {
 	for i := 0; i < n; i++ {
 		k := rapid.SampledFrom(kinds).Draw(rt, "kind")
 		w := genWorker(rt, k)
+		if k == kEnc && w.Len > 60000 && w.Reps > 2 {
+			w.Reps = 2 // bulk is expensive under the race detector; the repetitions go to the small messages
+		}
 		if k == kEnc {
 			// header sizes must differ between workers: the key name grows with the worker's index
 			w.KeyName += i
